@@ -14,7 +14,7 @@ def build_case(prog, excluded=None):
     except model.Unsupported as e:
         return {"discard": "reference refuses: %s" % e, "src": src}
     return {"src": src, "expect": {"out": ref["out"], "exc": ref["exc"]}, "ref_steps": ref["steps"],
-            "executed": ref["executed"]}
+            "executed": ref["executed"], "excluded": prog.get("excluded", {})}
 
 
 def case_strategy(profile):
@@ -65,6 +65,8 @@ class C01:
             stats.inc("discarded:" + case["discard"].split(":")[0])
             return None
         src, exp = case["src"], case["expect"]
+        for k, v in (case.get("excluded") or {}).items():
+            stats.inc("excluded_known:" + k, v)
         accepted = 0
         for annotate in (False, True):
             r = worker.transpile1(src, annotate)
